@@ -222,12 +222,20 @@ class Result:
     def facts(self, e, upto=0):
         """Normalised path facts of an event: list of (cond term, polarity, origin) with ``not`` stripped."""
         out = []
+
+        def add(cond, pol, origin):
+            while isinstance(cond, tuple) and cond[:2] == ("unop", "not"):
+                cond, pol = cond[2], not pol
+            if isinstance(cond, tuple) and cond[:1] == ("boolop",) and ((cond[1] == "and") == pol):
+                # (a and b) is True  /  (a or b) is False: every operand has that polarity
+                for v in cond[2]:
+                    add(v, pol, origin)
+                return
+            out.append((cond, pol, origin))
+
         for c in e.ctx[upto:]:
             if c[0] in ("if", "guard") and c[1] is not None:
-                cond, pol = c[1], c[2]
-                while isinstance(cond, tuple) and cond[:2] == ("unop", "not"):
-                    cond, pol = cond[2], not pol
-                out.append((cond, pol, c[0] if c[0] == "if" else c[3]))
+                add(c[1], c[2], c[0] if c[0] == "if" else c[3])
         return out
 
     def loops_of(self, e):
@@ -274,6 +282,21 @@ class Result:
 
     def fmt(self, t, depth=0):
         return self.prov.fmt(t, depth)
+
+    def early_exits(self, lid):
+        """``break`` / ``return`` / ``raise``-free?  Events that leave loop ``lid`` before it has visited every element
+        (a ``break`` whose innermost loop it is, or a ``return`` of the frame that owns the loop)."""
+        L = self.loops[lid]
+        out = []
+        for e in self.events:
+            loops = self.loops_of(e)
+            if lid not in loops:
+                continue
+            if e.kind == "break" and loops[-1] == lid:
+                out.append(e)
+            elif e.kind == "return" and e.frame is L.frame:
+                out.append(e)
+        return out
 
     def plain(self, t):
         """Peel representation-preserving wrappers: ``.values``, ``.copy()``, ``.to_numpy()``, ``np.asarray(x)``."""
@@ -439,9 +462,11 @@ class Prov:
         st.exits.add("raise")
 
     def st_Break(self, node, st, fr):
+        self.emit("break", fr.fn.name, node, fr, st)
         st.dead = "break"
 
     def st_Continue(self, node, st, fr):
+        self.emit("continue", fr.fn.name, node, fr, st)
         st.dead = "continue"
 
     def st_Assert(self, node, st, fr):
@@ -870,6 +895,11 @@ class Prov:
             k = idx[1]
             if -len(base[1]) <= k < len(base[1]):
                 return base[1][k]
+        if isinstance(idx, tuple) and idx[:1] == ("slice",) and idx[1] in (NONE, ("const", 0)) and idx[2] == NONE and idx[3] in (NONE, ("const", 1)):
+            # x[:] / x.iloc[:] -- the same elements in the same order
+            if isinstance(base, tuple) and base[:1] == ("getattr",) and base[2] in ("iloc", "loc"):
+                return base[1]
+            return base
         return ("item", base, idx)
 
     def ev_slice(self, s, st, fr):
